@@ -134,7 +134,7 @@ MCComps  == UNION {[1..n -> MCItems] : n \in 0..MaxItems}
 MCStarts == {TextBlk(""), ToolBlk("c1", "f", ""), ToolBlk("c2", "g", "")}
 MCStops  == {"end_turn", "max_tokens", "tool_use"}
 
-Init == /\ exp \in [items : MCComps, fin : {"length", "tool_calls", "none"},
+Init == /\ exp \in [items : MCComps, fin : {"tool_calls", "none"},
                     hasU : BOOLEAN, uin : {3}, uout : {5}]
         /\ strict = TRUE /\ phase = "init" /\ nextIdx = 0 /\ open = 0 /\ blocks = <<>>
         /\ rep = NoRep /\ buf = NoBuf /\ hist = <<>> /\ scn = <<>>
